@@ -35,12 +35,22 @@ type byteInput struct {
 	max int
 }
 
+// tr is one entry of a path trace: every solver-decided event of a path, so that a prefix can be
+// re-executed without asking the solver again.
+//   K=0 forced branch (V = direction), K=1 fork decision (V = chosen alternative, N = arity), K=2 model value V
+type tr struct {
+	K uint8  `json:"k"`
+	V uint64 `json:"v"`
+	N int    `json:"n,omitempty"`
+}
+
 type Explorer struct {
 	s         *Portfolio
 	pc        []*Term
-	prefix    []int
+	prefix    []tr
+	trace     []tr
 	decisions []int
-	work      [][]int
+	work      [][]tr
 	inputs    []*Term
 	inputSeen map[*Term]bool
 	byteIns   []byteInput
@@ -90,21 +100,31 @@ func (e *Explorer) check(extra ...*Term) string {
 	return r
 }
 
-func (e *Explorer) decide(n int) int {
-	k := len(e.decisions)
-	var d int
-	if k < len(e.prefix) {
-		d = e.prefix[k]
-	} else {
-		d = 0
-		e.forks += n
-		for alt := n - 1; alt >= 1; alt-- {
-			p := append(append(make([]int, 0, len(e.decisions)+1), e.decisions...), alt)
-			e.work = append(e.work, p)
-		}
+func (e *Explorer) replaying() bool { return len(e.trace) < len(e.prefix) }
+
+func (e *Explorer) next(kind uint8) tr {
+	t := e.prefix[len(e.trace)]
+	if t.K != kind {
+		panic(&Inconclusive{"re-execution diverged from its recorded trace"})
 	}
-	e.decisions = append(e.decisions, d)
-	return d
+	e.trace = append(e.trace, t)
+	return t
+}
+
+func (e *Explorer) decide(n int) int {
+	if e.replaying() {
+		t := e.next(1)
+		e.decisions = append(e.decisions, int(t.V))
+		return int(t.V)
+	}
+	e.forks += n
+	for alt := n - 1; alt >= 1; alt-- {
+		p := append(append(make([]tr, 0, len(e.trace)+1), e.trace...), tr{K: 1, V: uint64(alt), N: n})
+		e.work = append(e.work, p)
+	}
+	e.trace = append(e.trace, tr{K: 1, V: 0, N: n})
+	e.decisions = append(e.decisions, 0)
+	return 0
 }
 
 // Branch returns the direction taken for condition c on this path. The path condition is
@@ -116,11 +136,26 @@ func (e *Explorer) Branch(c *Term, where string) bool {
 	if c.IsFalse() {
 		return false
 	}
+	if e.replaying() {
+		t := e.prefix[len(e.trace)]
+		if t.K == 0 {
+			e.trace = append(e.trace, t)
+			return t.V == 1
+		}
+		d := e.decide(2)
+		if d == 0 {
+			e.pc = append(e.pc, c)
+			return true
+		}
+		e.pc = append(e.pc, Not(c))
+		return false
+	}
 	rt := e.check(c)
 	if rt == "unknown" {
 		panic(&Inconclusive{"solver unknown at " + where})
 	}
 	if rt == "unsat" {
+		e.trace = append(e.trace, tr{K: 0, V: 0})
 		return false
 	}
 	rf := e.check(Not(c))
@@ -131,6 +166,7 @@ func (e *Explorer) Branch(c *Term, where string) bool {
 		fmt.Fprintf(os.Stderr, "    br %s t=%v f=%v q=%d\n", where, rt, rf, e.s.Queries)
 	}
 	if rf == "unsat" {
+		e.trace = append(e.trace, tr{K: 0, V: 1})
 		return true
 	}
 	d := e.decide(2)
@@ -149,10 +185,18 @@ func (e *Explorer) feasible(c *Term, where string) bool {
 	if c.IsFalse() {
 		return false
 	}
+	if e.replaying() {
+		return e.next(0).V == 1
+	}
 	r := e.check(c)
 	if r == "unknown" {
 		panic(&Inconclusive{"solver unknown at " + where})
 	}
+	v := uint64(0)
+	if r == "sat" {
+		v = 1
+	}
+	e.trace = append(e.trace, tr{K: 0, V: v})
 	return r == "sat"
 }
 
@@ -172,6 +216,15 @@ func (e *Explorer) pcKey() string {
 }
 
 func (e *Explorer) modelValue(t *Term) uint64 {
+	if e.replaying() {
+		return e.next(2).V
+	}
+	v := e.modelValue1(t)
+	e.trace = append(e.trace, tr{K: 2, V: v})
+	return v
+}
+
+func (e *Explorer) modelValue1(t *Term) uint64 {
 	key := e.pcKey() + "|" + fmt.Sprint(t.id)
 	if v, ok := e.modelVals[key]; ok {
 		return v
@@ -442,9 +495,6 @@ func (e *Explorer) NoteAlloc(size *Term, where, fn string, limit uint64) {
 		return
 	}
 	big := And(Cmp("bvult", BV(64, limit), size), Cmp("bvsle", i64_0, size))
-	if e.violSeen["allocq@"+where+e.pcKey()] {
-		return
-	}
 	if e.feasible(big, "alloc "+where) {
 		e.report("alloc", "allocation size can exceed ceiling", where, fn, e.knownSite("alloc", fn), big)
 	}
